@@ -45,10 +45,21 @@ for pid in pids:
         if l not in kf:
             kf += l + "\n"
     d = section("DESIGN")
-    if d and f"### {pid} (built)" not in design:
+    if d:
         for h, nh in remap.items():
             d = re.sub(rf"\b{h}\b", nh, d)
-        design += f"\n### {pid} (built)\n{d}\n"
+        block = f"### {pid} (built)\n{d}\n\n"
+        m0 = re.search(rf"(?m)^### {pid} \(built\)\n", design)
+        if m0:
+            m1 = re.search(r"(?m)^### (C\d\d \(built\)|Seeded changes)", design[m0.end():])
+            end = m0.end() + m1.start() if m1 else len(design)
+            design = design[:m0.start()] + block + design[end:]
+        else:
+            m1 = re.search(r"(?m)^### Seeded changes", design)
+            if m1:
+                design = design[:m1.start()] + block + design[m1.start():]
+            else:
+                design += "\n" + block
 json.dump(man, open(os.path.join(V, "MANIFEST.json"), "w"), indent=1)
 open(os.path.join(V, "DESIGN.md"), "w").write(design)
 open(os.path.join(V, "known_findings.txt"), "w").write(kf)
